@@ -205,4 +205,26 @@ AlphaLimits ==
      EvABegin("au16"), EvABegin("string"), EvABegin("abit"),
      EvChunk(1, TRUE), EvChunk(1, FALSE), EvChunk(2, FALSE), EvChunk(2, TRUE), EvChunk(17, FALSE), EvChunk(0, FALSE),
      EvData(<<1>>), EvData(<<1, 2>>), EvData(<<1, 2, 3>>), EvData(<<1, 2, 3, 4>>) >>
+(* The document corpus (C01 C02 C03 C06 C09 C22 C23 C28 C29): class-level  *)
+(* alphabet.  k = "@class#i" is a placeholder the harness replaces by      *)
+(* concrete sample values of that class (index i keeps keys of one map     *)
+(* distinct); bytes <<n>> of a placeholder string is likewise replaced.    *)
+PH(m, dt, form, k) == [E0 EXCEPT !.m = m, !.dt = dt, !.form = form, !.k = k]
+PHArr(m, at, k)    == [E0 EXCEPT !.m = m, !.dt = at, !.at = at, !.k = k, !.count = 1, !.bytes = <<0>>]
+AlphaDoc ==
+  << EvBD, EvVer(0), EvED, EvEnd, EvList, EvMap, EvNode, EvEdge,
+     EvRT("a"), EvRec("a"), EvMark("a"), EvRef("a"), EvNull, EvNan,
+     PH("OnInt", "int", "int", "@int#1"), PH("OnPositiveInt", "int", "pint", "@pint#2"),
+     PH("OnNegativeInt", "int", "nint", "@nint#3"), PH("OnBigInt", "int", "bigint", "@bigint#4"),
+     PH("OnBoolean", "bool", "", "@bool#1"), PH("OnUID", "uid", "", "@uid#1"), PH("OnTime", "time", "", "@time#1"),
+     PH("OnFloat", "float", "", "@float#1"), PH("OnDecimalFloat", "float", "", "@dfloat#1"),
+     PH("OnBigDecimalFloat", "float", "", "@bdfloat#1"), PH("OnBigFloat", "float", "", "@bigfloat#1"),
+     [EvStr(<<1>>) EXCEPT !.k = "@str#1"], [EvStr(<<2>>) EXCEPT !.k = "@str#2"], [EvRid(<<3>>) EXCEPT !.k = "@rid#1"],
+     [EvSArr("rref", <<4>>) EXCEPT !.k = "@rref#1"],
+     PHArr("OnArray", "au8", "@arr#1"), PHArr("OnMedia", "media", "@media#1"), PHArr("OnCustomBinary", "cbin", "@cbin#1") >>
+
+(* corpus filter: only events the model accepts; bounded container width.  *)
+(* How an array is chunked is a concretisation choice of the harness       *)
+(* (whole event, or begin + chunks + data events), not of the model.       *)
+FilterDoc(s, e) == Step(s, e).st = "ok" /\ Cur(s).cur <= 3
 =============================================================================
